@@ -403,12 +403,23 @@ func (u *UnaryExpression) SQL() string {
 	case PGPostfixFactorial:
 		return operandSQL(u.Expr, precPrimary) + "!"
 	case Plus:
-		return "+" + operandSQL(u.Expr, precJSON)
+		return "+" + signOperandSQL(u.Expr)
 	case Minus:
-		return "-" + operandSQL(u.Expr, precJSON)
+		return "-" + signOperandSQL(u.Expr)
 	default:
 		return u.Operator.String() + operandSQL(u.Expr, precPrimary)
 	}
+}
+
+// signOperandSQL serialises the operand of a unary sign. An operand that itself
+// starts with a sign is kept apart from it: "- -a" must not become "--a", which
+// opens a line comment.
+func signOperandSQL(e Expression) string {
+	s := operandSQL(e, precJSON)
+	if strings.HasPrefix(s, "-") || strings.HasPrefix(s, "+") {
+		return " " + s
+	}
+	return s
 }
 
 func (a *AliasedExpression) SQL() string {
